@@ -1127,6 +1127,13 @@ class NP:
     def f_digitize(self, interp, line, x, bins, right=False):
         return self.unit.digitize(interp, x, bins, right, line)
 
+    def f_searchsorted(self, interp, line, a, v, side='left', sorter=None):
+        """searchsorted(a, v, 'left') = #{a_i < v} = digitize(v, a, right=True); 'right' = #{a_i <= v} = digitize(v, a) for ascending a."""
+        if sorter is not None or side not in ('left', 'right'):
+            raise Unsupported('searchsorted form')
+        interp.ctx.use('numpy.searchsorted(a, v, side) on ascending a: left = number of a_i < v, right = number of a_i <= v')
+        return self.unit.digitize(interp, v, a, side == 'left', line)
+
     def f_linspace(self, interp, line, start, stop, num=50, dtype=None, endpoint=True):
         return self.unit.linspace(interp, start, stop, num, dtype, line)
 
